@@ -193,12 +193,12 @@ func (i *inspect) addIndexes(t *schema.Table, rows *sql.Rows) (pk string, err er
 			},
 		}
 		if partial {
-			i := strings.Index(stmt.String, "WHERE")
-			if i == -1 {
+			loc := reIdxWhere.FindStringIndex(stmt.String)
+			if loc == nil {
 				return "", fmt.Errorf("missing partial WHERE clause in: %s", stmt.String)
 			}
 			idx.Attrs = append(idx.Attrs, &IndexPredicate{
-				P: strings.TrimSpace(stmt.String[i+5:]),
+				P: strings.TrimSpace(stmt.String[loc[1]:]),
 			})
 		}
 		t.Indexes = append(t.Indexes, idx)
@@ -210,6 +210,8 @@ var (
 	// A regexp to extract index parts.
 	reIdxParts = regexp.MustCompile("(?i)ON\\s+[\"`]*(?:\\w+)[\"`]*\\s*\\((.+?)\\)(\\s*WHERE\\s+.+)?$")
 	reIdxDesc  = regexp.MustCompile("(?i)\\s+DESC\\s*$")
+	// SQLite stores the statement as it was written: the keyword comes in any letter case.
+	reIdxWhere = regexp.MustCompile("(?i)\\bWHERE\\b")
 )
 
 func (i *inspect) indexInfo(ctx context.Context, t *schema.Table, idx *schema.Index) error {
